@@ -130,6 +130,12 @@ ShapesFor(fo, lk, c) == LET A == AllowedShapes(lk) IN
   IF LinkMode = "all" THEN {A[i] : i \in 1..Len(A)}
   ELSE {A[(((c \div StrideOf(fo)) + Phase) % Len(A)) + 1]}
 
+(* two bases that disagree on a key, listed in ONE array by a file that sets nothing itself: the case that shows
+   "later entries override earlier ones"; always generated, whatever the sampling says *)
+Conflict(a, b) == \E f \in FieldSet : IsSet(a, f) /\ IsSet(b, f) /\ a[f] # b[f]
+ForcedArray(lv, lk, i) == /\ i = 1 /\ Len(lv) >= 2 /\ Conflict(lv[Len(lv) - 1], lv[Len(lv)])
+                          /\ (IF Len(lk) >= 1 THEN lk[Len(lk)] # "array" ELSE FALSE)
+
 OnlySet(L) == [f \in {g \in FieldSet : IsSet(L, g)} |-> L[f]]
 SetAt(lv, f) == {i \in 1..Len(lv) : IsSet(lv[i], f)}
 NonTrivial(lv) == \/ \E f \in FieldSet : Cardinality(SetAt(lv, f)) >= 2
@@ -147,8 +153,8 @@ Init == /\ focus \in Foci
 Extend == /\ Len(levels) < DepthOf(focus)
           /\ \E i \in 1..Len(Alphabet(focus)) :
                LET L == Alphabet(focus)[i]  c == code * 11 + i IN
-               /\ Keep(focus, Len(levels) + 1, c)
-               /\ \E s \in ShapesFor(focus, links, c) :
+               /\ (IF ForcedArray(levels, links, i) THEN TRUE ELSE Keep(focus, Len(levels) + 1, c))
+               /\ \E s \in (IF ForcedArray(levels, links, i) THEN {"array"} ELSE ShapesFor(focus, links, c)) :
                     /\ levels' = Append(levels, L)
                     /\ links' = Append(links, s)
                     /\ run' = Override(run, L)
